@@ -39,6 +39,25 @@ dst = os.path.join(OUT, "time.go.txt")
 open(dst, "w").write(s)
 overlay[src] = dst
 
+# --- runtime map iteration order (a seam the harness decides; off unless VerifMapIterFixed is set) ---
+src = os.path.join(goroot, "src/runtime/map.go")
+s = open(src).read()
+anchor = "\tr := uintptr(rand())\n\tit.startBucket = r & bucketMask(h.B)\n"
+assert s.count(anchor) == 1, "mapiterinit anchor not found"
+s = s.replace(anchor, "\tr := uintptr(rand())\n\tif VerifMapIterFixed {\n\t\tr = VerifMapIterSeed\n\t}\n\tit.startBucket = r & bucketMask(h.B)\n")
+s += """
+// VerifMapIterFixed / VerifMapIterSeed: when set, every map iteration of the process starts at the bucket and
+// in-bucket offset derived from the seed instead of a random one (verification harness only: the iteration order
+// of Go maps is a source of nondeterminism that the harness has to own).
+var (
+	VerifMapIterFixed bool
+	VerifMapIterSeed  uintptr
+)
+"""
+dst = os.path.join(OUT, "runtime_map.go.txt")
+open(dst, "w").write(s)
+overlay[src] = dst
+
 # --- controller-runtime controller.New ---
 src = os.path.join(modcache, "sigs.k8s.io/controller-runtime@v0.14.6/pkg/controller/controller.go")
 s = open(src).read()
